@@ -53,6 +53,23 @@ def fwd_event(cv, an, name, E, slat, slon, h, turn):
     return ev
 
 
+def fwdany_event(cv, name, E, lat, lon, h, out=None):
+    """forward conversion at ANY position (degrees as given): the closed form with the specification's own sines and cosines"""
+    a = float(E.semimaj)
+    invf = float(E.inversef)
+    f = 1.0 / invf
+    e2 = f * (2 - f)
+    ev = {"k": "FwdAny", "ell": name, "a": fix.enc(a), "invf": fix.enc(invf), "f0": fix.enc(f),
+          "r0": fix.enc(1.0 / math.sqrt(1 - e2 * math.sin(math.radians(lat)) ** 2)), "latdeg": fix.enc(float(lat)),
+          "londeg": fix.enc(float(lon)), "h": fix.enc(float(h)), "lat": lat, "lon": lon, "hf": float(h), "out": [[0], [0], [0]], "exc": ""}
+    try:
+        x, y, z = cv.llh2xyz(lat, lon, float(h), E) if out is None else out
+        ev["out"] = [fix.enc(x), fix.enc(y), fix.enc(z)]
+    except Exception as ex:
+        ev["exc"] = "%s: %s" % (type(ex).__name__, str(ex)[:100])
+    return ev
+
+
 def inv_event(cv, name, E, p):
     ev = {"k": "Inv", "ell": name, "in": [fix.enc(v) for v in p], "p": list(p), "lat": [0], "lon": [0], "back": [[0], [0], [0]],
           "exc": ""}
@@ -98,6 +115,17 @@ def run(ctx):
         name, E = ells[i % len(ells)]
         traces.append({"ev": [fwd_event(cv, an, name, E, slat, slon, h, (i % 3) - 1 if abs(math.degrees(math.atan2(slon[0], slon[1])) + 360 * ((i % 3) - 1)) <= 360 else 0)]})
     calls += 2 * len(traces)
+    # anywhere (not only on the rational-trigonometry lattice): random latitudes, longitudes in [-360, 360], heights, values a hair
+    # off the equator / the poles / the quadrant meridians
+    for k in range(300 if quick else 6000):
+        name, E = ells[k % len(ells)]
+        lat = rnd.choice([rnd.uniform(-90, 90), rnd.uniform(-90, 90), rnd.uniform(-1e-7, 1e-7), 90 - rnd.uniform(0, 1e-6), -90 + rnd.uniform(0, 1e-6),
+                          0.0, 90.0, -90.0, 45.0])
+        lon = rnd.choice([rnd.uniform(-360, 360), rnd.uniform(-360, 360), 0.0, 90.0, -90.0, 180.0, -180.0, 270.0, 360.0, -360.0,
+                          90 + rnd.uniform(-1e-9, 1e-9)])
+        h = rnd.choice([-1e4, 0.0, 4e7, rnd.uniform(-1e4, 4e7), rnd.uniform(-1e4, 1e4)])
+        traces.append({"ev": [fwdany_event(cv, name, E, lat, lon, h)]})
+        calls += 1
     n_fwd = len(traces)
     # inverse: Cartesian points from geodetic strata and directly in all octants
     ninv = 600 if quick else 20000
@@ -133,10 +161,11 @@ def run(ctx):
         ctx.actions[e["k"]] = ctx.actions.get(e["k"], 0) + 1
     ctx.exhaustive = not quick
     ctx.rule = ("forward: %s lattice of Pythagorean latitudes (incl. 0 and +-90) x longitudes in four quadrants (+-360 deg turns) x "
-                "9 heights (-10 km..40 000 km), 4 shipped + random ellipsoids, equator and poles on every ellipsoid; inverse: %d "
+                "9 heights (-10 km..40 000 km), 4 shipped + random ellipsoids, equator and poles on every ellipsoid, plus %d positions "
+                "anywhere (random and a hair off the equator / poles / quadrant meridians; sines and cosines from Trig.tla); inverse: %d "
                 "Cartesian points from geodetic strata and directly in all octants (radii a-10 km..a+4e7 m, incl. 1 mm..100 m off "
                 "the axis and z = 0); distinct = distinct (direction, height, ellipsoid); the repository tests use ~130 Australian "
-                "points on GRS80" % ("sampled (1800 of 21420)" if quick else "complete (21420 points)", ninv))
+                "points on GRS80" % ("sampled (1800 of 21420)" if quick else "complete (21420 points)", 300 if quick else 6000, ninv))
     for t in traces[:1] + traces[n_fwd - 1:n_fwd] + traces[-1:]:
         e = t["ev"][0]
         ctx.sample({k: e[k] for k in e if k in ("k", "ell", "slat", "slon", "hf", "lat", "lon", "p")})
